@@ -406,7 +406,7 @@ impl Prop for C10 {
 
     fn plan(&self, tier: Tier) -> Plan {
         let mut p = Plan::new(match tier {
-            Tier::Quick => 2500,
+            Tier::Quick => 30000,
             Tier::Thorough => 50_000,
         });
         p.workers = 12;
